@@ -19,7 +19,11 @@ Proof. unfold Rltb; destruct (Rlt_dec a b); split; intros; auto; try discriminat
 Lemma Reqb_false a b : Reqb a b = false <-> a <> b.
 Proof. unfold Reqb; destruct (Req_EM_T a b); split; intros; auto; try discriminate; contradiction. Qed.
 
-Definition Rlit (l : flit) : R := IZR (Qnum (flit_q l)) / IZR (Zpos (Qden (flit_q l))).
+Definition Rlit (l : flit) : R :=
+  match Qden (flit_q l) with
+  | xH => IZR (Qnum (flit_q l))
+  | d => IZR (Qnum (flit_q l)) / IZR (Zpos d)
+  end.
 
 (* real cube root, odd extension *)
 Definition Rcbrt (x : R) : R :=
